@@ -10,6 +10,7 @@
    Outcomes of the model: ROk | RErr e | RPanic (every unwrap / assert of the Rust code that the
    compiler cannot rule out) | ROutOfFuel (the loop did not finish within [fuel] iterations). *)
 From SV Require Import Base.Bytes Base.BytesP Base.IO Model.Headers Model.Head Proofs.HeadP Proofs.HeadReadP.
+From SV Require Generated.SourceParams Tie.HeadTie.
 
 (* C01.1  Head::try_read itself never panics (find_slice bounds the try_read_exact unwrap; token
    bytes are ASCII; after the repair of D1 the value conversion is checked). *)
@@ -174,6 +175,23 @@ Example c01_nonvacuous :
   = Some (VErr E_HeadTooLong (skipn 17 stream)).
 Proof. vm_compute. split; reflexivity. Qed.
 
+(* C01.src-head  Head::try_read (src/head.rs) after read_head_bytes, as TRANSLATED statement by statement ON THIS RUN
+   (props/srcparams.py -> Generated/SourceParams.v: src_try_read -- the split at LF with trim_trailing_cr, the first
+   line as request line or MissingRequestLine, parse_request_line, the loop that parses and pushes EVERY remaining
+   line, the value returned), interpreted by Tie/HeadTie.v, is the head parser the theorems above are about, for every
+   head and every URL parser; the field-value byte test of parse_header_line, the first character demanded of the
+   target and the protocol text are the model's *)
+Theorem c01_try_read_is_the_source :
+  forall url_parse hb, Tie.HeadTie.eval_try_read url_parse hb = Model.Head.parse_head url_parse hb.
+Proof. exact Tie.HeadTie.try_read_tie. Qed.
+Theorem c01_line_parser_literals_are_the_source :
+  (forall b, Base.Bytes.is_fv_byte b =
+             (N.eqb b Generated.SourceParams.src_fv_tab || Base.Bytes.in_range Generated.SourceParams.src_fv_lo Generated.SourceParams.src_fv_hi b)%bool) /\
+  Generated.SourceParams.src_target_first = [47%N] /\ Generated.SourceParams.src_protocol = Model.Head.http11.
+Proof. exact (conj Tie.HeadTie.fv_byte_tie (conj Tie.HeadTie.target_first_tie Tie.HeadTie.protocol_tie)). Qed.
+Theorem c01_try_read_translation_complete : Generated.SourceParams.src_problems_try_read = 0%nat.
+Proof. exact Tie.HeadTie.try_read_translated. Qed.
+
 Print Assumptions c01_try_read_never_panics.
 Print Assumptions c01_read_head_spec.
 Print Assumptions c01_read_head_total.
@@ -192,3 +210,6 @@ Print Assumptions c01_oracle_seq_sound.
 Print Assumptions C01_refuted_prefix.
 Print Assumptions c01_d1_repaired.
 Print Assumptions c01_oracle_try_sound.
+Print Assumptions c01_try_read_is_the_source.
+Print Assumptions c01_line_parser_literals_are_the_source.
+Print Assumptions c01_try_read_translation_complete.
